@@ -10,8 +10,14 @@
      slice comparison - the path compiled with debug assertions, which is the one the harness runs),
      sort_by (indices 0..n, comparator on the arena slices), sort_by_length (indices re-initialised only when their
      number differs from the number of entries; key entries[idx].length()), get_sorted, iter_sorted.
-   Not modelled: radix_sort (MSD radix), binary_search, the statistics, the release-mode comparator
-   fast_lexicographic_cmp (not compiled into the harness).
+     radix_sort (index vector re-used like sort_by_length; radix_sort_msd_helper: <= 1 element: nothing; < 32
+     elements: sort_unstable_by on the suffixes from `depth`; otherwise bucket by the byte at `depth` - 0 for a
+     string that has ended, byte + 1 otherwise -, ended strings first, then the buckets 1..256 in order, each
+     sorted recursively at depth + 1).  The counting sort that distributes the indices into the buckets (257
+     counters, exclusive prefix sums, scatter into the scratch buffer, copy back) is modelled by its result, the
+     stable partition by bucket key.
+   Not modelled: binary_search, the statistics, the release-mode comparator fast_lexicographic_cmp (not compiled
+   into the harness).
 
    The standard library's sort_unstable_by is a parameter `usort`; theorems quantify over every sorting routine
    that returns a permutation of its input which is sorted whenever the comparator is a total preorder.  When a
@@ -52,7 +58,8 @@ Inductive sop : Type :=
 | SSortByLen
 | SSortBy (f : bytes -> bytes -> comparison)
 | SGetSorted (i : N)
-| SIterSorted.
+| SIterSorted
+| SRadix.
 
 (* push_str.  checked = true: the code after fix commit 1a81140 (length > MAX_LENGTH refused);
    checked = false: the pinned tree (no check of the length field) *)
@@ -110,6 +117,26 @@ Definition ssv_sort_by_length (v : ssv) : res ssv :=
   rbind (rmap (fun i => rbind (index (entries v) i) (fun e => Done (i, ce_length e))) idx0) (fun data =>
   Done (ssv_set_sorted v (map fst (usort _ (fun a b => snd a ?= snd b) data)))).
 
+(* radix_sort_msd_helper on (index, string) pairs *)
+Definition rkey (depth : nat) (p : N * bytes) : N :=
+  match nth_error (snd p) depth with Some b => b + 1 | None => 0 end.
+Definition bucket (depth : nat) (k : N) (items : list (N * bytes)) : list (N * bytes) :=
+  filter (fun p => rkey depth p =? k) items.
+Fixpoint msd (fuel : nat) (depth : nat) (items : list (N * bytes)) : list (N * bytes) :=
+  if (length items <=? 1)%nat then items
+  else if (length items <? 32)%nat then
+    usort _ (fun a b => lex_cmp (skipn depth (snd a)) (skipn depth (snd b))) items
+  else match fuel with
+       | O => items       (* out of fuel: cannot happen with fuel > the longest string *)
+       | S f => bucket depth 0 items ++ concat (map (fun k => msd f (S depth) (bucket depth k items)) (nseq 1 256))
+       end.
+Definition msd_fuel (items : list (N * bytes)) : nat := S (list_max (map (fun p => length (snd p)) items)).
+
+Definition ssv_radix_sort (v : ssv) : res ssv :=
+  let idx0 := if nlen (sidx v) =? nlen (entries v) then sidx v else ssv_all v in
+  if nlen (entries v) =? 0 then Done (ssv_set_sorted v idx0)
+  else rbind (ssv_keyed v idx0) (fun data => Done (ssv_set_sorted v (map fst (msd (msd_fuel data) 0 data)))).
+
 Definition ssv_get_sorted (v : ssv) (i : N) : res (option bytes) :=
   if negb (is_sorted v) || (nlen (sidx v) <=? i) then Done None
   else rbind (index (sidx v) i) (fun original => ssv_get v original).
@@ -130,6 +157,7 @@ Definition ssv_step_with (checked : bool) (v : ssv) (o : sop) : res (ssv * sobs)
   | SSortBy f => rbind (ssv_sort_by f v) (fun v' => Done (v', OUnit))
   | SGetSorted i => rbind (ssv_get_sorted v i) (fun r => Done (v, OStr r))
   | SIterSorted => rbind (ssv_iter_sorted v) (fun l => Done (v, OList l))
+  | SRadix => rbind (ssv_radix_sort v) (fun v' => Done (v', OUnit))
   end.
 Definition ssv_step := ssv_step_with true.
 
@@ -180,6 +208,12 @@ Definition svs_step (st : svs) (o : sop) : svs * sobs :=
           ssorted := true |}, OUnit)
   | SGetSorted i => (st, OStr (svs_get_sorted st i))
   | SIterSorted => (st, OList (until_none (map (svs_get_sorted st) (nseq 0 (length (sx st))))))
+  | SRadix =>
+      let idx0 := if nlen (sx st) =? nlen (sl st) then sx st else svs_all (sl st) in
+      ({| sl := sl st;
+          sx := if nlen (sl st) =? 0 then idx0
+                else map fst (msd (msd_fuel (svs_keyed (sl st) idx0)) 0 (svs_keyed (sl st) idx0));
+          ssorted := true |}, OUnit)
   end.
 
 Fixpoint svs_run (st : svs) (ops : list sop) : svs * list sobs :=
@@ -191,6 +225,9 @@ Fixpoint svs_run (st : svs) (ops : list sop) : svs * list sobs :=
 
 End Sorting.
 
+(* the strings handed to push are byte strings *)
+Definition sop_wf (o : sop) : Prop := match o with SPush s => bytes_ok s | _ => True end.
+
 (* the entries a sequence of pushes lays out: offsets are the running sums of the lengths *)
 Fixpoint layout (off : N) (n : N) (l : list bytes) : list N :=
   match l with
@@ -199,12 +236,13 @@ Fixpoint layout (off : N) (n : N) (l : list bytes) : list N :=
   end.
 
 (* SV v st: the arena is the concatenation of the pushed strings, the entries are their layout, every string
-   fits the length field, the arena fits the offset field; the index vector is the specification's, it is a
+   fits the length field and consists of bytes, the arena fits the offset field; the index vector is the specification's, it is a
    permutation of 0..its own length, not longer than the entry vector, and complete whenever is_sorted *)
 Record SV (v : ssv) (st : svs) : Prop := {
   SV_arena : arena v = concat (sl st);
   SV_entries : entries v = layout 0 0 (sl st);
   SV_lens : Forall (fun s => nlen s <= SSV_MAX_LENGTH) (sl st);
+  SV_bytes : Forall bytes_ok (sl st);
   SV_total : total_len (sl st) <= SSV_MAX_OFFSET;
   SV_idx : sidx v = sx st;
   SV_flag : is_sorted v = ssorted st;
